@@ -47,6 +47,12 @@ def fread_rule(enc, host):
     al = "ST_%s (src, K)" % enc
     if W[enc] == 24:
         al = "WIDEN (%s, 24, 32)" % al
+    # the stored value in its own width (same number; keeps the int->FP conversion term narrow, which the
+    # FP back ends need in order to finish)
+    if enc == "sc":
+        al = "(signed char) (%s)" % al
+    if W[enc] == 16:
+        al = "(short) (%s)" % al
     return "dest [K] == ((%s) (%s)) * normfact" % (CT[host], al)
 
 
@@ -123,6 +129,49 @@ void h_unit (void)
             "timeout": timeout, "tier": tier, "kind": kind, "note": note, "backend": backend, "drop_flags": list(drop_flags)}
 
 
+def elem_unit(name, src_t, dest_t, order, rule, props, extra_params="", extra_assume="", drop_flags=(), backend="cvc5"):
+    """One element, plain (non-DFCC) harness, cvc5: the real kernel is called with count == 1 and the
+    documented rule is asserted for that element (all values of the element and of the parameters)."""
+    ep = extra_params.strip().lstrip(",").strip()
+    argname = ep.split()[-1] if ep else ""
+    if order == "scd":
+        call = "%s (src, 1, dest%s)" % (name, (", " + argname) if argname else "")
+    else:
+        call = "%s (src, dest, 1%s)" % (name, (", " + argname) if argname else "")
+    post = rule.replace("K", "0")
+    h = HEAD + """
+void h_unit (void)
+{	%(src_t)s src [1] ; %(dest_t)s dest [1] ; %(src_t)s nd ;
+%(decl)s
+	src [0] = nd ;
+%(assume)s
+	%(call)s ;
+	__CPROVER_assert (%(post)s, "element rule") ; /*@C02.element_rule_single*/
+	CANARY () ;
+}
+""" % dict(src_t=src_t, dest_t=dest_t, decl=("\t" + ep + " ;") if ep else "", call=call, post=post,
+           assume=("\t__CPROVER_assume (%s) ;" % extra_assume) if extra_assume else "")
+    return {"name": "pcm." + name + ".elem", "props": props, "harness_text": h, "template": "units/gen_pcm_kernels.py",
+            "entry": "h_unit", "dfcc": False, "function": "pcm.c:" + name, "backend": backend,
+            "cbmc_flags": ["--unwind", "2"], "timeout": 300, "tier": "quick", "kind": "proof",
+            "drop_flags": list(drop_flags) + (["--slice-formula"] if backend == "cvc5" else []),
+            "note": "single element, structural FP (cvc5); that every iteration applies this element function is "
+                    "closed by the thorough-tier DFCC loop unit of the same kernel"}
+
+
+def frame_unit(name, src_t, dest_t, order, props, extra_params="", extra_req="", drop_flags=()):
+    u = kernel_unit(name, src_t, dest_t, order, "1", props, extra_params=extra_params, extra_req=extra_req,
+                    drop_flags=drop_flags)
+    u["name"] = "pcm." + name + ".frame"
+    u["note"] = "index range, termination, frame (only dest [0..count) written, src untouched); element value in the .elem unit"
+    return u
+
+
+# kernels whose full DFCC loop unit with the IEEE term needs minutes: quick tier = .elem + .frame, thorough = full
+SLOW = set(["%s2d_array" % e for e in ENC] + ["%s2f_array" % e for e in ENC] +
+           ["d2%s_array" % e for e in ("bes", "les", "bet", "let", "bei", "lei")])
+
+
 def units():
     U = []
     # integer readers
@@ -138,20 +187,37 @@ def units():
     # integer -> float/double readers: value * normfact (normfact chosen by the caller, see pcm_read_* units)
     for host in ("f", "d"):
         for enc in ENC:
-            U.append(kernel_unit("%s2%s_array" % (enc, host), CT[enc], CT[host], "scd",
+            nm = "%s2%s_array" % (enc, host)
+            slow = nm in SLOW
+            U.append(kernel_unit(nm, CT[enc], CT[host], "scd",
                                  fread_rule(enc, host), ["C02", "C19"],
                                  extra_params=", %s normfact" % CT[host],
                                  extra_req="__CPROVER_requires (normfact > 0 && normfact <= 1)", backend="kissat",
-                                 timeout=600, note="structural FP"))
+                                 timeout=3600 if slow else 600, tier="thorough" if slow else "quick", note="structural FP"))
+            if slow:
+                U.append(elem_unit(nm, CT[enc], CT[host], "scd", fread_rule(enc, host), ["C02"],
+                                   extra_params=", %s normfact" % CT[host], extra_assume="normfact > 0 && normfact <= 1",
+                                   backend="cvc5"))
+                U.append(frame_unit(nm, CT[enc], CT[host], "scd", ["C02", "C19"], extra_params=", %s normfact" % CT[host]))
     # float/double -> integer writers
     for host in ("f", "d"):
         for enc in ENC:
             for clip in (False, True):
                 nm = "%s2%s_%sarray" % (host, enc, "clip_" if clip else "")
                 post, inv = fwrite_terms(host, enc, clip)
+                # the libm call is written as CBMC's own primitive for it (lrint == round_to_integral in the current
+                # rounding mode, then conversion; E2) in postcondition and invariant alike
+                post = inv
+                slow = nm in SLOW
+                if slow:
+                    U.append(elem_unit(nm, CT[host], CT[enc], "sdc", post, ["C02"], extra_params=", int normalize",
+                                       drop_flags=["--signed-overflow-check"]))
+                    U.append(frame_unit(nm, CT[host], CT[enc], "sdc", ["C02", "C19"], extra_params=", int normalize",
+                                        drop_flags=["--signed-overflow-check"]))
                 U.append(kernel_unit(nm, CT[host], CT[enc], "sdc", post, ["C02", "C19"],
                                      extra_params=", int normalize", rule_inv=inv,
-                                     timeout=900, tier="quick", backend="kissat", drop_flags=["--signed-overflow-check"],
+                                     timeout=3600 if slow else 900, tier="thorough" if slow else "quick",
+                                     backend="kissat", drop_flags=["--signed-overflow-check"],
                                      note="structural FP; float->int cast overflow for NaN / out-of-domain elements not checked"))
     return U
 
